@@ -133,6 +133,10 @@ def main(argv=None):
         print("  clause %-28s evals=%-9d nontrivial=%-8d outcomes=%-7d viol=%d%s"
               % (name, p["evaluations"], p["distinct_nontrivial"],
                  p["distinct_outcomes"], p["violations"], extra))
+    for name, p in per.items():
+        for k, v in p.items():
+            if k.startswith("violations_at:"):
+                print("    %s %s = %d" % (name, k, v))
     for fid, h in sorted(hits.items()):
         print("KNOWN-FINDING: property=%s %s: %s [hits=%d%s]"
               % (prop, fid, findings.what(fid), h[0],
